@@ -31,6 +31,7 @@ type item =
   | If of string * item list * item list (* {% if x %} a {% else %} b {% endif %} *)
   | For of string * string * item list   (* {% for x in xs %} body {% endfor %} *)
   | Set of string * string               (* {% set x = 'lit' %} *)
+  | D of string                          (* {{ x is defined ? 'd' : 'u' }} *)
 
 type pexpr =
   | PStatic of string
@@ -41,7 +42,7 @@ type pexpr =
 type tpl = { name : string; ext : (pexpr * bool * int) option;  (* parent, bare spelling, position among the top-level nodes *)
              items : item list }
 
-type cval = CS of string | CB of bool | CL of string list
+type cval = CS of string | CB of bool | CL of string list | CN   (* CN: null, a name that is defined all the same *)
 
 (* ---------------------------------------------------------------- to the model's syntax *)
 let bs = G.bs
@@ -56,6 +57,7 @@ let rec node_of (it : item) : M.node =
   | If (x, a, b) -> M.NIf ([ (G.var x, nodes_of a) ], (if b = [] then None else Some (nodes_of b)))
   | For (x, xs, body) -> M.NFor (None, bs x, G.var xs, nodes_of body, None)
   | Set (x, s) -> M.NSet (bs x, G.lit_str s)
+  | D x -> M.NPrint (M.ECond (M.ETest (G.var x, bs "defined", [], false), G.lit_str "d", G.lit_str "u"))
 and nodes_of (l : item list) : M.node list = List.map node_of l
 
 let expr_of (p : pexpr) : M.expr =
@@ -84,7 +86,7 @@ let source (t : tpl) : string =
     go pos ns
 
 let value_of (c : cval) : M.value =
-  match c with CS s -> G.vstr s | CB b -> M.VBool b | CL l -> G.vlist (List.map G.vstr l)
+  match c with CS s -> G.vstr s | CB b -> M.VBool b | CL l -> G.vlist (List.map G.vstr l) | CN -> M.VNull
 
 (* ---------------------------------------------------------------- the oracle: substitution, computed directly *)
 exception Oerr of string
@@ -131,6 +133,7 @@ let oracle (tpls : tpl list) (main : string) (ctx : (string * cval) list) : (str
         | V x -> Buffer.add_string buf (str x !env)
         | LI -> Buffer.add_string buf (string_of_int loopidx)
         | Set (x, s) -> bind x (CS s)
+        | D x -> Buffer.add_string buf (if List.mem_assoc x !env then "d" else "u")
         | P ->
           (match pos with
            | None -> raise (Oerr "other")
@@ -143,7 +146,7 @@ let oracle (tpls : tpl list) (main : string) (ctx : (string * cval) list) : (str
            | [] -> raise (Oerr "oracle: block without definition")
            | body :: _ -> render body (Some (n, 0)) loopidx)
         | If (x, a, b) ->
-          let truth = match List.assoc_opt x !env with Some (CB t) -> t | Some (CS s) -> s <> "" && s <> "0" | Some (CL l) -> l <> [] | None -> false in
+          let truth = match List.assoc_opt x !env with Some (CB t) -> t | Some (CS s) -> s <> "" && s <> "0" | Some (CL l) -> l <> [] | Some CN | None -> false in
           render (if truth then a else b) pos loopidx
         | For (x, xs, body) ->
           let l = match List.assoc_opt xs !env with Some (CL l) -> l | _ -> [] in
@@ -364,7 +367,7 @@ let gen_deep r : tpl list * string * (string * cval) list * (string * cval) list
         end else [] in
       let label = b ^ string_of_int i in
       (* what a definition reads: v (the overriding block may assign it between two parent() calls) *)
-      let pv = if rint r 5 < 2 then [ V "v" ] else [] in
+      let pv = match rint r 6 with 0 | 1 -> [ V "v" ] | 2 -> [ D "nv"; D "nosuch" ] | _ -> [] in
       if c = Define then Some ([ T label ] @ pv @ inner ())
       else
         (match rint r 8 with
@@ -415,7 +418,7 @@ let gen_deep r : tpl list * string * (string * cval) list * (string * cval) list
       { name = tname i; ext = Some (pe, bare, rint r (1 + List.length top)); items = top @ defs @ (if rbool r then [ T "tail" ] else []) }) in
   let tpls = List.sort (fun a b -> compare a.name b.name) (layout :: children) in
   let names_ctx = List.concat (List.init l (fun i -> [ ("p" ^ string_of_int i, CS (tname (i + 1))); ("s" ^ string_of_int i, CS (string_of_int (i + 1))) ])) in
-  let ctx t xs v = [ ("t", CB t); ("xs", CL xs); ("v", CS v); ("wide", CB t) ] @ names_ctx in
+  let ctx t xs v = [ ("t", CB t); ("xs", CL xs); ("v", CS v); ("wide", CB t); ("nv", CN) ] @ names_ctx in
   let xs1 = pick r [| [ "1" ]; [ "1"; "2" ]; []; [ "p"; "q"; "r" ] |] and xs2 = pick r [| [ "9" ]; []; [ "x"; "y" ] |] in
   (tpls, tname 0, ctx (rint r 4 > 0) xs1 "x", ctx (rbool r) xs2 "y")
 
